@@ -1,7 +1,7 @@
 (* CatmullSurplusLoop: the osu!-mode simplification of a Catmull sub-path
    (catmull_simplify) keeps the surplus small against the path.
 
-   Invariant [PI c path opt] on the path built so far and the surplus [opt]
+   Invariant [SInv c path opt] on the path built so far and the surplus [opt]
    (c: a counter, at least the number of groups closed so far):
        opt finite,   |opt| <= 2^60 * c,
        - opt <= (3/4 + 2 c u) * Lam path            (u = 2^-53)
@@ -81,11 +81,11 @@ Qed.
 
 Definition cmax : R := 1073741824.     (* 2^30 *)
 
-Definition PI (c : nat) (path : list Pos) (opt : F64) : Prop :=
+Definition SInv (c : nat) (path : list Pos) (opt : F64) : Prop :=
   fin opt /\ Rabs (B2R opt) <= pw 60 * INR c /\
   - B2R opt <= (3 / 4 + 2 * INR c * u64) * Lam path.
 
-Lemma PI_mono c c' p p' opt : PI c p opt -> (c <= c')%nat -> Lam p <= Lam p' -> PI c' p' opt.
+Lemma SInv_mono c c' p p' opt : SInv c p opt -> (c <= c')%nat -> Lam p <= Lam p' -> SInv c' p' opt.
 Proof.
   intros (F & U & N) Hc HL. pose proof (le_INR _ _ Hc) as Hc'. pose proof (pos_INR c) as P.
   pose proof (bpow_gt_0 radix2 60). pose proof u64_pos as Up. pose proof (Lam_nonneg p).
@@ -94,7 +94,7 @@ Proof.
   apply Rmult_le_compat; nra.
 Qed.
 
-Lemma PI_zero : PI 0 [] D.zero.
+Lemma SInv_zero : SInv 0 [] D.zero.
 Proof.
   split; [reflexivity|]. split; [cbn; rewrite Rabs_R0; lra|].
   unfold Lam. cbn. lra.
@@ -106,11 +106,11 @@ Lemma p22 : pw 22 = 4194304. Proof. cbn. lra. Qed.
 Lemma p23 : pw 23 = 8388608. Proof. cbn. lra. Qed.
 
 (* one group: opt += r - d, the path gains a segment of length d <= 4 r *)
-Lemma PI_group c path path' opt (rem dfs : F64) :
-  PI c path opt -> INR c + 1 <= cmax ->
+Lemma SInv_group c path path' opt (rem dfs : F64) :
+  SInv c path opt -> INR c + 1 <= cmax ->
   fin rem -> fin dfs -> 0 <= B2R dfs -> B2R dfs <= 4 * B2R rem -> B2R rem <= pw 54 ->
   Lam path' = Lam path + B2R dfs ->
-  PI (S c) path' (D.add opt (D.sub rem dfs)).
+  SInv (S c) path' (D.add opt (D.sub rem dfs)).
 Proof.
   intros (Fo & Uo & No) Hc Fr Fd Hd0 Hdr Hr HLam.
   pose proof u64_pos as Up. assert (Hu1 : u64 <= / 1000000) by (unfold u64; lra).
@@ -300,10 +300,10 @@ Qed.
 Theorem simplify_loop_inv l : forall i n prev lso rem acc opt P c k acc' opt',
   Forall (fun p => coord_le p 20) (prev :: l) -> segs_ok (prev :: l) ->
   gstate (P ++ acc) prev lso rem k ->
-  PI c (P ++ acc) opt ->
+  SInv c (P ++ acc) opt ->
   INR k + INR (length l) <= cmax -> INR c + INR (length l) <= cmax ->
   simplify_loop l i n prev lso rem acc opt = (acc', opt') ->
-  exists c', PI c' (P ++ acc') opt' /\ INR c' <= INR c + INR (length l).
+  exists c', SInv c' (P ++ acc') opt' /\ INR c' <= INR c + INR (length l).
 Proof.
   induction l as [|curr t IH]; intros i n prev lso rem acc opt P c k acc' opt' Hco Hsg Hg HPI Hk Hc H.
   - rewrite simplify_loop_nil in H. inversion H; subst. exists c. split; [exact HPI|cbn; lra].
@@ -354,7 +354,7 @@ Proof.
           destruct (seg_len_fin q curr Hq Hcurr) as (_ & E1). rewrite E1.
           destruct (seg_len_fin curr ls Hcurr Hls) as (_ & E2). unfold pdist. rewrite E2.
           rewrite (plen_psub_ext curr q ls Hcurr Hq Hls Eq). apply plen_psub_sym; assumption. }
-        pose proof (PI_group c (P ++ acc) (P ++ acc ++ [curr]) opt rem' (f64_of_f32 (pdist ls curr))
+        pose proof (SInv_group c (P ++ acc) (P ++ acc ++ [curr]) opt rem' (f64_of_f32 (pdist ls curr))
                       HPI ltac:(lra) Fr' Fd Hd0 Hd4 Hr54 HLam) as HPI'.
         destruct (IH (i + 1)%Z n curr None D.zero (acc ++ [curr]) _ P (S c) 0%nat acc' opt'
                      Hco' Hsg' eq_refl HPI' ltac:(cbn [INR]; lra) ltac:(rewrite S_INR; lra) H) as (c' & HP & Hc').
@@ -368,8 +368,8 @@ Proof.
         exists c'. split; [exact HP|]. lra.
     + (* a new group starts at curr *)
       rewrite simplify_loop_none in H. cbn [gstate] in Hg. subst rem.
-      assert (HPI' : PI (S c) (P ++ acc ++ [curr]) opt).
-      { apply (PI_mono c (S c) (P ++ acc)); [exact HPI|lia|rewrite app_assoc; apply Lam_app_ge]. }
+      assert (HPI' : SInv (S c) (P ++ acc ++ [curr]) opt).
+      { apply (SInv_mono c (S c) (P ++ acc)); [exact HPI|lia|rewrite app_assoc; apply Lam_app_ge]. }
       assert (Hg' : gstate (P ++ acc ++ [curr]) curr (Some curr) D.zero 0).
       { split; [exact Hcurr|]. split; [exists (P ++ acc), curr; rewrite app_assoc; split; [reflexivity|split; [exact Hcurr|reflexivity]]|].
         exists 0. split; [reflexivity|]. split; [apply rel_zero|].
